@@ -29,6 +29,26 @@ STRENGTHENED = {
     "C09-agent3": "first contact: C09 silent (C05-E3 fired). C09 gained S6 = C05-E3 (a stream ends silently only at a message boundary)",
     "C10-agent3": "first contact: exit 2 in 12 checks - the normaliser inlined the new event-holding sub-pump into process_tpm2b, which then looked like a second pump. The pump role now requires the driver to feed from `iter(<own parameter>)`; C10-T1 then reports the byte request inside process_tpm2b",
     "C12-agent3": "first contact: C12 silent (C03-R1 fired). C12-P1 now treats method calls that write `self` on a module-level instance of a repo class (directly or through a local alias / a method returning self) as cross-decode state; helper methods other modules mention are kept by the normaliser",
+    "C01-agent4": "first contact: C01 silent (C05-E3 / C09-S6 fired). C01 gained W10 = C05-E3: without the stream-type guard of the pump's silent return the root event of a zero-length structure decoded at top level is swallowed",
+    "C02-agent4": "caught from the start (primitive event once); its refactoring part (emit()/read_bytes() generator helpers) tripped the read-loop rule, which now accepts `data.append((yield None))`, bytearray accumulators and `int.from_bytes(bytes(data))` and checks that the accumulator starts empty",
+    "C03-agent4": "caught from the start, with false-alarm companions on the new `size_remaining` property. The normaliser expands new members of pinned classes in every module (N9), simplifies the resulting conditional values under known facts (N10) and canonicalises linear arithmetic (N11); R6 recognises the truthiness of an expanded count expression",
+    "C04-agent4": "caught from the start; V4 / O4 were restated as decision tables over path summaries (ValidValues.get per item, NamedRange.__contains__/by_number/__init__), which also turned the companion exit 2 of C16 into a report",
+    "C05-agent4": "first contact: exit 2 in 12 checks (the clean-up keeps the look-ahead in `next(it, None)` form, there is no depleted flag). The pump typestate learned the marker form (B = EMPTY, `byte is None` tests), constant loop tests and a `warned` component; C05-E3 then reports the lost depleted guard",
+    "C06-agent4": "first contact: C06 silent (C01-F reported the IndexError). C06-X1 re-uses the fold of encrypted() over all parameter areas and reports its raising outcomes",
+    "C07-agent4": "caught from the start (NI-2); the repaired variant's `SizeConstraintList.open()` needed N9 (methods expanded across modules) and list-membership folding in the specialiser",
+    "C08-agent4": "caught as built (Y2)",
+    "C09-agent4": "caught after S2 gained the loop-carried argument rule (a flag left by an earlier iteration of the stream loop reaches the response decode)",
+    "C10-agent4": "first contact: C10 silent (C05-E3 / C09-S6 fired). C10 gained T5 = C05-E3: the empty prefix of a non-stream decode must report depletion",
+    "C11-agent4": "first contact: exit 2 (the invisible-field names moved onto the layout classes). The specialiser folds tuples of names kept on layout classes, C11 evaluates a non-literal name set with the spec-model evaluator; A1 then reports the two missing names",
+    "C12-agent4": "caught from the start (P2 / A6 on the bounded memo); the repaired variant needed minieval to follow same-module helpers and A6 to follow the memo into the delegated helper",
+    "C13-agent4": "first contact: exit 2 (a `lookahead` tuple mirrors the byte). The resolver decides feasibility of definitions next to a pull from the typestate and reports a copy of the look-ahead byte that a later pull may have replaced",
+    "C14-agent4": "first contact: caught only through a false alarm on the merged loop. Q2 accepts a held event that moves to another name and is handed back, and requires that the emptiness flag is cleared only by an event known to be a list element - which is the seeded accident",
+    "C15-agent4": "first contact: caught only through a false alarm on the dict dispatch. F7 gained: a local that holds a digit value or None is never tested by truthiness (the digit 0 is a digit)",
+    "C16-agent4": "caught as built after O4 became a table over the summaries of NamedRange.__init__ (index_nibbles)",
+    "C17-agent4": "first contact: exit 2 (shift-loop idiom gone). M2 evaluates the accessor for every mask with the register value symbolic and splits on value bits when the code branches on them: the content-dependent shift is reported with the class of values it is wrong for",
+    "C18-agent4": "first contact: exit 2 (`entry is None`). The classification walker decides None-marker locals per branch; N1 then reports the 256 vendor codes that are classified as warnings",
+    "C19-agent4": "caught as built (L2), after N3 learned table comprehensions and N14 one-element loops for the refactoring part",
+    "C20-agent4": "caught as built (snapshot)",
 }
 rows = []
 for m in sorted(glob.glob(os.path.join(os.path.dirname(os.path.dirname(os.path.abspath(__file__))), "seeded", "*", "meta.json"))):
